@@ -1,8 +1,130 @@
+import DeapModel.Core.Spea2
+import DeapModel.Core.Nsga3
 import Driver.Proto
-/-! Protocol handler for C07 (stub until the model is built). -/
+/-! Protocol handler for C07 (SPEA2, NSGA-III, reference points).
+
+ops (tokens after `C07`):
+* `spea2 <wvalues;…> <k> <fits,…|-> <D;…>`      → positions returned by `selSPEA2`
+* `qsel <array,…> <begin> <end> <i> <draws,…|->` → `_randomizedSelect` value or `none`
+* `niching <L> <k> <nref> <niches> <dist f:…> <counts0> <tape|none>` → `<selected> <counts>` | `err:…`
+* `nsga3 <fronts;…> <k> <niches> <dist f:…> <nref> <tape|none>`      → chosen ids | `err:…`
+* `assoc <fits;…> <refs;…> <best> <intercepts>`  → `<niches> <dists>` (floats as bit patterns)
+* `assocd …`                                     → `<dists>` only
+* `refs <M> <p> <scaling|none>`                  → points (floats as bit patterns)
+* `mem <rows;…> <best> <worst>`                  → `<best'> <worst'>`
+-/
 namespace DriverC07
+open Proto
+
+def parseTape (s : String) : Option (List (List Nat)) :=
+  if s = "none" then some [] else (s.splitOn ";").mapM (parseList parseNat)
+
+def showErr : Nsga3.Err → String
+  | .badTape => "err:bad-tape"
+  | .raised => "err:raised"
+  | .fuel => "err:fuel"
+
+def ratToFloat (q : Rat) : Float := Float.ofInt q.num / Float.ofNat q.den
+
+def rect {β : Type} (rows : List (List β)) (w : Nat) : Bool := rows.all (fun r => r.length == w)
 
 def handle : List String → String
+  | ["spea2", ws, ks, fs, ds] =>
+    match (do
+      let w ← parseList2 parseRat ws
+      let k ← parseNat ks
+      let f ← parseList parseRat fs
+      let d ← parseList2 parseRat ds
+      pure (w, k, f, d)) with
+    | some (w, k, f, d) =>
+      let n := w.length
+      if n = 0 || !(rect d n) || d.length != n || !(f.isEmpty || f.length == n)
+          || d.any (fun r => r.any (fun x => decide (x < 0))) then "bad-op"
+      else
+        showList toString
+          (Spea2.selSPEA2 (Spea2.domW w) n k (fun i => f.getD i 0)
+            (fun i j => (d.getD i []).getD j 0))
+    | none => "bad-op"
+  | ["qsel", as, bs, es, is, ts] =>
+    match (do
+      let a ← parseList parseRat as
+      let b ← parseNat bs
+      let e ← parseNat es
+      let i ← parseRat is
+      let t ← parseList parseNat ts
+      pure (a, b, e, i, t)) with
+    | some (a, b, e, i, t) =>
+      showOpt showRat (Spea2.randomizedSelect (fun n => (n : Rat)) (a.length + 2) a b e i t)
+    | none => "bad-op"
+  | ["niching", ls, ks, rs, ns, ds, cs, ts] =>
+    match (do
+      let l ← parseNat ls
+      let k ← parseNat ks
+      let r ← parseNat rs
+      let n ← parseList parseNat ns
+      let d ← parseList parseFloat ds
+      let c ← parseList parseNat cs
+      let t ← parseTape ts
+      pure (l, k, r, n, d, c, t)) with
+    | some (l, k, r, n, d, c, t) =>
+      if n.length != l || d.length != l || c.length != r then "bad-op" else
+      match Nsga3.niching l k r (fun p => n.getD p 0) (fun p => d.getD p 0.0) (fun j => c.getD j 0) t with
+      | .error e => showErr e
+      | .ok st => showList toString st.selected ++ " " ++ showList toString ((List.range r).map st.counts)
+    | none => "bad-op"
+  | ["nsga3", frs, ks, ns, ds, rs, ts] =>
+    match (do
+      let fr ← parseList2 parseNat frs
+      let k ← parseNat ks
+      let n ← parseList parseNat ns
+      let d ← parseList parseFloat ds
+      let r ← parseNat rs
+      let t ← parseTape ts
+      pure (fr, k, n, d, r, t)) with
+    | some (fr, k, n, d, r, t) =>
+      let tot := fr.flatten.length
+      if n.length != tot || d.length != tot then "bad-op" else
+      match Nsga3.selNSGA3 fr k n d 0.0 r t with
+      | .error e => showErr e
+      | .ok ch => showList toString ch
+    | none => "bad-op"
+  | [op, fs, rs, bs, is] =>
+    if op != "assoc" && op != "assocd" then "bad-op" else
+    match (do
+      let f ← parseList2 parseFloat fs
+      let r ← parseList2 parseFloat rs
+      let b ← parseList parseFloat bs
+      let i ← parseList parseFloat is
+      pure (f, r, b, i)) with
+    | some (f, r, b, i) =>
+      let m := b.length
+      if m = 0 || i.length != m || !(rect f m) || !(rect r m) || r.isEmpty then "bad-op" else
+      let res := Nsga3.associate f r b i
+      if op == "assoc" then
+        showList toString (res.map (·.1)) ++ " " ++ showList showFloat (res.map (·.2))
+      else showList showFloat (res.map (·.2))
+    | none => "bad-op"
+  | ["refs", ms, ps, ss] =>
+    match (do
+      let m ← parseNat ms
+      let p ← parseNat ps
+      let s ← if ss = "none" then some none else (parseRat ss).map some
+      pure (m, p, s)) with
+    | some (m, p, s) =>
+      if m = 0 || p = 0 then "bad-op" else
+      showList2 (fun q => showFloat (ratToFloat q)) (Nsga3.uniformRefPoints m p s)
+    | none => "bad-op"
+  | ["mem", rs, bs, ws] =>
+    match (do
+      let r ← parseList2 parseFloat rs
+      let b ← parseList parseFloat bs
+      let w ← parseList parseFloat ws
+      pure (r, b, w)) with
+    | some (r, b, w) =>
+      let m := b.length
+      if m = 0 || w.length != m || !(rect r m) then "bad-op" else
+      showList showFloat (Nsga3.colMin r b) ++ " " ++ showList showFloat (Nsga3.colMax r w)
+    | none => "bad-op"
   | _ => "bad-op"
 
 end DriverC07
